@@ -1,7 +1,7 @@
 """C27 - premiums follow the configured rate and match what peer-sync advertises.
 
 spec/Premium.tla    the persistent map (owner, slot) -> rate, rate resolution (peer-specific, else stored global,
-                    else built-in), Premium = amount * rate / 10^6 truncated toward zero on base-1000 limbs
+                    else built-in), Premium = amount * rate / 10^6 truncated toward zero on base-1000 limbs, saturated at int64
 spec/PremiumMC      TLC: all operation sequences (wide: 4 slots, deep: complete state space of DeepSlots), resolution
                     and map lemmas, arithmetic lemmas on the grid; exports one schedule per distinct (map, incoming op)
                     and the rate x amount grid
@@ -156,18 +156,18 @@ def run(prop, tier):
                  "2 peers x 4 slots x rates {-1, 0, 10^6}) and every sequence of <= %d operations restricted to slots %s, and exports the "
                  "shortest sequence reaching each distinct (map, incoming operation); prefixes of other schedules are dropped "
                  "(distinct_nontrivial = executed TLC schedules); plus 4 grid schedules (%d rates x %d amounts through peer and global "
-                 "rate) and %d seeded random schedules of 5..%d operations (rates in +-10^6, amounts <= 21e14 sat); every step executed on "
+                 "rate) and %d seeded random schedules of 5..%d operations (rates in +-10^6, amounts over the whole uint64 range incl. the former int64-overflow region and >= 2^63); every step executed on "
                  "the real premium.Setting / peersync.PeerSync and every read judged by PremiumTrace" % (
                      cfgt["wide"], cfgt["deep"], cfgt["deepslots"], len(grid["rates"]), len(grid["amounts"]), cfgt["nrand"], cfgt["randlen"]),
             schedules_exported_by_tlc=len(scheds), schedules_by_source=by_src,
             steps_on_real_code=steps, trace_lines=v["n"], compute_evaluations=ncomp,
             reads_per_step="12 GetRate + 4 GetDefaultRate + 12 advertised (RequestPoll; + 12 ForcePollAllPeers at the end of a schedule) + Compute",
             spec_lemmas="P_C27_Rate P_C27_Fallback (invariants) P_C27_Map (action property) LemmaBound LemmaSign LemmaOdd LemmaIdentity "
-                        "LemmaSmall LemmaOverflow (ASSUME)",
+                        "LemmaSmall LemmaOverflow LemmaSaturate (ASSUME)",
             trace_spec="PremiumTrace: Apply per logged operation; gr/gd/ad/fp/cp = projection of the map",
             known_findings=sorted(ver.known), new_violations=sorted(ver.new),
         ), time.time() - t0, len(ver.new),
-            assumptions=["amounts <= 21 * 10^14 sat (every bitcoin); larger amounts (and amounts >= 2^63, which the int64 cast turns negative) are not exercised",
+            assumptions=["amounts are unsigned 64-bit (0 .. 2^64-1); a quotient outside int64 (only for amounts >= 2^63) must be the saturated bound",
                          "rates within +-10^6 ppm as the statement says (the premium store itself does not enforce the range)",
                          "peer ids are node pubkeys; the literal peer id \"default\" would alias the stored global rate",
                          "the premium database is opened with bbolt NoSync (no fsync); restart = Close + Open of the same file",
